@@ -540,6 +540,9 @@ func (c *fnctx) stmts(list []ast.Stmt, rest string) string {
 		}
 		return pre + " " + tail()
 	}
+	if out, ok := c.stmtC17Ext(list, rest); ok { // c17calls.go (targets of GenC17Calls only)
+		return out
+	}
 	if out, ok := c.stmtIOExt(list, rest); ok { // iotargets.go (opt-in: Target.IO)
 		return out
 	}
